@@ -2,7 +2,7 @@
    keyed by id, FstDictionary answers like the MutableDictionary it was built from, a merged
    dictionary is the first-wins union of its children. *)
 Require Import Base DictModel Fuzzy ListLemmas.
-From Coq Require Import Lia Permutation.
+From Coq Require Import Lia Permutation Sorting.Sorted.
 
 Lemma text_eqb_eq a b : text_eqb a b = true <-> a = b.
 Proof.
@@ -122,6 +122,134 @@ Qed.
 Lemma NoDup_snoc {A} (l : list A) a : NoDup l -> ~ In a l -> NoDup (l ++ [a]).
 Proof.
   intros ND Hn. apply (NoDup_Add (Add_app a l [])). rewrite app_nil_r. now split.
+Qed.
+
+(* ------------------------------------------------------------------------------------------ *)
+(** * the order on spellings, sorting and dedup in general *)
+Lemma text_leb_refl a : text_leb a a = true.
+Proof. induction a as [|x a IH]; cbn [text_leb]; [reflexivity|]. rewrite N.ltb_irrefl, N.eqb_refl. exact IH. Qed.
+
+Lemma text_leb_total a b : text_leb a b = true \/ text_leb b a = true.
+Proof.
+  revert b. induction a as [|x a IH]; intros [|y b]; cbn [text_leb]; auto.
+  destruct (N.ltb_spec x y); [now left|]. destruct (N.ltb_spec y x); [now right|].
+  assert (x = y) as -> by lia. rewrite N.eqb_refl. apply IH.
+Qed.
+
+Lemma text_leb_trans a b c : text_leb a b = true -> text_leb b c = true -> text_leb a c = true.
+Proof.
+  revert b c. induction a as [|x a IH]; intros [|y b] [|z c]; cbn [text_leb]; auto; try discriminate.
+  destruct (N.ltb_spec x y) as [Hxy|Hxy]; destruct (N.ltb_spec y z) as [Hyz|Hyz]; intros H1 H2.
+  - destruct (N.ltb_spec x z); [reflexivity|lia].
+  - destruct (N.eqb_spec y z); [|discriminate]. subst. destruct (N.ltb_spec x z); [reflexivity|lia].
+  - destruct (N.eqb_spec x y); [|discriminate]. subst. destruct (N.ltb_spec y z); [reflexivity|lia].
+  - destruct (N.eqb_spec x y); [|discriminate]. destruct (N.eqb_spec y z); [|discriminate]. subst.
+    rewrite N.ltb_irrefl, N.eqb_refl. eapply IH; eassumption.
+Qed.
+
+Lemma text_leb_antisym a b : text_leb a b = true -> text_leb b a = true -> a = b.
+Proof.
+  revert b. induction a as [|x a IH]; intros [|y b]; cbn [text_leb]; auto; try discriminate.
+  destruct (N.ltb_spec x y) as [Hxy|Hxy]; destruct (N.ltb_spec y x) as [Hyx|Hyx]; intros H1 H2; try lia.
+  - destruct (N.eqb_spec y x); [lia|discriminate].
+  - destruct (N.eqb_spec x y); [lia|discriminate].
+  - destruct (N.eqb_spec x y); [|discriminate]. subst. rewrite N.eqb_refl in H2. f_equal. now apply IH.
+Qed.
+
+Section SortGen.
+  Context {A : Type} (le : A -> A -> bool).
+  Hypothesis le_total : forall a b, le a b = true \/ le b a = true.
+  Hypothesis le_trans : forall a b c, le a b = true -> le b c = true -> le a c = true.
+  Let R (a b : A) : Prop := le a b = true.
+
+  Lemma insert_by_sorted_gen x l : StronglySorted R l -> StronglySorted R (insert_by le x l).
+  Proof.
+    induction 1 as [|y ys Hs IH Hy]; cbn [insert_by]; [repeat constructor|].
+    destruct (le x y) eqn:E.
+    - constructor; [now constructor|]. constructor; [exact E|].
+      eapply Forall_impl; [|exact Hy]. intros z Hz. now apply (le_trans x y z).
+    - constructor; [exact IH|]. rewrite (insert_by_perm le x ys).
+      constructor; [|exact Hy]. destruct (le_total x y) as [H|H]; [congruence|exact H].
+  Qed.
+
+  Lemma isort_sorted_gen l : StronglySorted R (isort le l).
+  Proof. induction l as [|x xs IH]; cbn [isort]; [constructor|now apply insert_by_sorted_gen]. Qed.
+End SortGen.
+
+(* two sorted permutations of each other coincide when the order is antisymmetric *)
+Lemma sorted_perm_eq {A} (R : A -> A -> Prop) (antisym : forall a b, R a b -> R b a -> a = b) :
+  forall l l', StronglySorted R l -> StronglySorted R l' -> Permutation l l' -> l = l'.
+Proof.
+  induction l as [|a l IH]; intros l' S S' P.
+  - apply Permutation_nil in P. now subst.
+  - destruct l' as [|b l']; [apply Permutation_sym, Permutation_nil in P; discriminate|].
+    inversion S as [|? ? Sl Fa]; subst. inversion S' as [|? ? Sl' Fb]; subst.
+    rewrite Forall_forall in Fa, Fb.
+    assert (a = b) as ->.
+    { assert (Ha : In a (b :: l')) by (eapply Permutation_in; [exact P|now left]).
+      assert (Hb : In b (a :: l)) by (eapply Permutation_in; [apply Permutation_sym; exact P|now left]).
+      destruct Ha as [->|Ha]; [reflexivity|]. destruct Hb as [->|Hb]; [reflexivity|].
+      apply antisym; [now apply Fa|now apply Fb]. }
+    f_equal. apply IH; [exact Sl|exact Sl'|]. eapply Permutation_cons_inv; exact P.
+Qed.
+
+Lemma dedup_from_incl {A} (same : A -> A -> bool) last l x : In x (dedup_from same last l) -> In x l.
+Proof.
+  revert last. induction l as [|y rest IH]; intros last H; cbn [dedup_from] in H; [contradiction|].
+  destruct (same y last); [right; eapply IH; exact H|]. destruct H as [<-|H]; [now left|right; eapply IH; exact H].
+Qed.
+
+Lemma dedup_by_incl {A} (same : A -> A -> bool) l x : In x (dedup_by same l) -> In x l.
+Proof.
+  destruct l as [|a l]; cbn [dedup_by]; [tauto|]. intros [<-|H]; [now left|right; eapply dedup_from_incl; exact H].
+Qed.
+
+(* after a sort by a text key, dedup by that key leaves pairwise distinct keys *)
+Section DedupGen.
+  Context {A : Type} (key : A -> text).
+  Definition key_same (x y : A) : bool := text_eqb (key x) (key y).
+  Definition key_R (a b : A) : Prop := text_leb (key a) (key b) = true.
+
+  Lemma dedup_from_sorted_gen l : forall last, StronglySorted key_R (last :: l) ->
+    NoDup (map key (last :: dedup_from key_same last l)).
+  Proof.
+    induction l as [|y rest IH]; intros last S.
+    - cbn [dedup_from map]. repeat constructor. intros [].
+    - inversion S as [|? ? S1 F1]; subst. inversion S1 as [|? ? S2 F2]; subst. inversion F1 as [|? ? Hly F1']; subst.
+      cbn [dedup_from]. destruct (key_same y last) eqn:E.
+      + apply IH. constructor; assumption.
+      + specialize (IH y S1). rewrite map_cons. constructor; [|exact IH].
+        intros Hin. apply in_map_iff in Hin as (z & Ez & Hz).
+        assert (Hz' : In z (y :: rest)) by (destruct Hz as [<-|Hz]; [now left|right; eapply dedup_from_incl; exact Hz]).
+        assert (Hyz : key_R y z).
+        { destruct Hz' as [<-|Hz']; [apply text_leb_refl|]. rewrite Forall_forall in F2. now apply F2. }
+        unfold key_R in Hly, Hyz. rewrite Ez in Hyz.
+        pose proof (text_leb_antisym _ _ Hly Hyz) as Eq.
+        unfold key_same in E. apply text_eqb_neq in E. apply E. now symmetry.
+  Qed.
+
+  Lemma dedup_by_sorted_nodup l : StronglySorted key_R l -> NoDup (map key (dedup_by key_same l)).
+  Proof.
+    destruct l as [|a l]; intros S; cbn [dedup_by]; [constructor|]. now apply dedup_from_sorted_gen.
+  Qed.
+End DedupGen.
+
+Lemma filter_id {A} (p : A -> bool) l : (forall x, In x l -> p x = true) -> filter p l = l.
+Proof.
+  induction l as [|x l IH]; intros H; cbn [filter]; [reflexivity|].
+  rewrite (H x (or_introl eq_refl)). f_equal. apply IH. intros y Hy. apply H. now right.
+Qed.
+
+Lemma nodup_fst_unique {A B} (l : list (A * B)) a b b' :
+  NoDup (map fst l) -> In (a, b) l -> In (a, b') l -> b = b'.
+Proof.
+  induction l as [|[x y] l IH]; cbn [map fst In]; intros ND H1 H2; [contradiction|].
+  inversion ND as [|? ? Hn ND']; subst.
+  destruct H1 as [H1|H1]; destruct H2 as [H2|H2].
+  - congruence.
+  - injection H1 as -> ->. exfalso. apply Hn. apply (in_map fst) in H2. exact H2.
+  - injection H2 as -> ->. exfalso. apply Hn. apply (in_map fst) in H1. exact H1.
+  - now apply IH.
 Qed.
 
 Section DictFacts.
@@ -256,11 +384,117 @@ Section DictFacts.
     now apply NoDup_map_inv in ND.
   Qed.
 
+  (* ---------- FstDictionary::new in general (fix 71c98b2): the fuzzy index is in step with the word map ---------- *)
+  Lemma wsort_sorted ws : StronglySorted (key_R (@fst text meta)) (wsort ws).
+  Proof.
+    pose proof (isort_sorted_gen (fun x y : text * meta => text_leb (fst x) (fst y))
+                  (fun a b => text_leb_total (fst a) (fst b))
+                  (fun a b c => text_leb_trans (fst a) (fst b) (fst c)) ws) as H.
+    exact H.
+  Qed.
+
+  Lemma wdedup_wsort_nodup ws : NoDup (map fst (wdedup (wsort ws))).
+  Proof. apply (dedup_by_sorted_nodup (@fst text meta)), wsort_sorted. Qed.
+
+  Lemma wdedup_wsort_incl ws x : In x (wdedup (wsort ws)) -> In x ws.
+  Proof.
+    intros H. apply dedup_by_incl in H. eapply Permutation_in; [apply isort_perm|exact H].
+  Qed.
+
+  (* an entry of a map built by extend_words was already there or is one of the inserted (word, metadata) pairs *)
+  Lemma mut_extend_in_sub L : forall m k e, NoDup (map fst m) ->
+    In (k, e) (mut_extend m L) -> In (k, e) m \/ In (e_canon e, e_meta e) L.
+  Proof.
+    induction L as [|[w md] L IH]; intros m k e ND H; [now left|].
+    rewrite mut_extend_cons in H. cbn [fst snd] in H.
+    apply IH in H; [|now apply wm_put_nodup].
+    destruct H as [H|H]; [|right; now right].
+    unfold DictModel.wm_insert in H. apply wm_put_in in H; [|exact ND].
+    destruct H as [[_ ->]|[_ H]]; [right; left; reflexivity|now left].
+  Qed.
+
+  Lemma kept_by_iff L w md : NoDup (map fst L) -> In (w, md) L ->
+    (kept_by is_lower lower (mut_extend [] L) (w, md) = true <-> In (word_id w, mkentry md w) (mut_extend [] L)).
+  Proof.
+    intros ND Hin. pose proof (mut_extend_nil_wf L) as [NDm K].
+    unfold kept_by, mut_canon, wm_get_with_chars. cbn [fst]. split.
+    - destruct (wm_get (mut_extend [] L) (word_id w)) as [e|] eqn:G; cbn [option_map]; [|discriminate].
+      intros E. apply text_eqb_eq in E.
+      apply (wm_get_in _ _ _ NDm) in G.
+      destruct (mut_extend_in_sub L [] _ _ (NoDup_nil _) G) as [[]|Hl].
+      rewrite E in Hl. pose proof (nodup_fst_unique L w _ _ ND Hl Hin) as Em.
+      destruct e as [em ec]. cbn [e_canon e_meta] in *. subst. exact G.
+    - intros H. apply (wm_get_in _ _ _ NDm) in H. rewrite H. cbn [option_map e_canon]. apply text_eqb_refl.
+  Qed.
+
+  Definition entries_of (m : wordmap) : list (text * meta) :=
+    map (fun kv => (e_canon (snd kv), e_meta (snd kv))) m.
+
+  Lemma entries_of_nodup m : wm_wf m -> NoDup (entries_of m).
+  Proof.
+    intros [ND K]. apply (NoDup_map_inv fst). apply (NoDup_map_inv word_id).
+    unfold entries_of. rewrite !map_map. cbn [fst].
+    erewrite map_ext_in; [exact ND|]. intros [k e] Hin. cbn [fst snd]. symmetry. now apply K.
+  Qed.
+
+  Lemma entries_of_in m w md : wm_wf m -> (In (w, md) (entries_of m) <-> In (word_id w, mkentry md w) m).
+  Proof.
+    intros [ND K]. unfold entries_of. rewrite in_map_iff. split.
+    - intros ([k e] & E & Hin). cbn [snd] in E. injection E as <- <-.
+      rewrite (K k e Hin) in Hin. now destruct e.
+    - intros Hin. exists (word_id w, mkentry md w). split; [reflexivity|exact Hin].
+  Qed.
+
+  (* for EVERY word list: the inner word map is a finite map keyed by id, `words` (the fuzzy index) holds
+     exactly its entries, and words_iter lists exactly the spellings of `words` *)
+  Theorem fst_new_in_step ws :
+    wm_wf (f_full (fst_new ws)) /\
+    (forall w md, In (w, md) (f_words (fst_new ws)) <-> In (word_id w, mkentry md w) (f_full (fst_new ws))) /\
+    Permutation (f_words (fst_new ws)) (entries_of (f_full (fst_new ws))) /\
+    Permutation (fst_words_iter (fst_new ws)) (map fst (f_words (fst_new ws))).
+  Proof.
+    unfold DictModel.fst_new. cbn [f_full f_words]. set (L := wdedup (wsort ws)).
+    pose proof (wdedup_wsort_nodup ws) as NDL. fold L in NDL.
+    pose proof (mut_extend_nil_wf L) as Hwf.
+    assert (Hiff : forall w md, In (w, md) (filter (kept_by is_lower lower (mut_extend [] L)) L)
+                                <-> In (word_id w, mkentry md w) (mut_extend [] L)).
+    { intros w md. rewrite filter_In. split.
+      - intros [Hin Hk]. now apply (kept_by_iff L w md NDL Hin).
+      - intros H. destruct (mut_extend_in_sub L [] _ _ (NoDup_nil _) H) as [[]|Hin]. cbn [e_canon e_meta] in Hin.
+        split; [exact Hin|now apply (kept_by_iff L w md NDL Hin)]. }
+    assert (P : Permutation (filter (kept_by is_lower lower (mut_extend [] L)) L) (entries_of (mut_extend [] L))).
+    { apply NoDup_Permutation.
+      - apply NoDup_filter. eapply NoDup_map_inv. exact NDL.
+      - now apply entries_of_nodup.
+      - intros [w md]. rewrite Hiff. symmetry. now apply entries_of_in. }
+    split; [exact Hwf|]. split; [exact Hiff|]. split; [exact P|].
+    unfold fst_words_iter. cbn [f_full]. unfold mut_words.
+    rewrite (Permutation_map fst P). unfold entries_of. rewrite map_map. cbn [fst]. reflexivity.
+  Qed.
+
+  (* ---------- … and on entries with pairwise distinct ids nothing is dropped ---------- *)
+  Lemma wdedup_distinct ws : NoDup (ids_of ws) -> wdedup (wsort ws) = wsort ws.
+  Proof.
+    intros ND. unfold wdedup. apply (dedup_by_distinct (@fst text meta)).
+    apply ids_distinct_spellings. eapply ids_of_perm; [|exact ND]. apply isort_perm.
+  Qed.
+
+  Lemma kept_all_distinct ws : NoDup (ids_of ws) ->
+    filter (kept_by is_lower lower (mut_extend [] ws)) ws = ws.
+  Proof.
+    intros ND. apply filter_id. intros [w md] Hin.
+    apply kept_by_iff; [now apply ids_distinct_spellings|exact Hin|].
+    rewrite mut_extend_distinct_ids by exact ND.
+    change (word_id w, mkentry md w) with (entry_of (w, md)). now apply in_map.
+  Qed.
+
+  Lemma fst_new_full ws : NoDup (ids_of ws) -> f_full (fst_new ws) = mut_extend [] (wsort ws).
+  Proof. intros ND. unfold DictModel.fst_new. cbn [f_full]. now rewrite wdedup_distinct. Qed.
+
   Lemma fst_new_words ws : NoDup (ids_of ws) -> f_words (fst_new ws) = wsort ws.
   Proof.
-    intros ND. unfold DictModel.fst_new. cbn [f_words]. unfold wdedup.
-    apply (dedup_by_distinct (@fst text meta)).
-    apply ids_distinct_spellings. eapply ids_of_perm; [|exact ND]. apply isort_perm.
+    intros ND. unfold DictModel.fst_new. cbn [f_words]. rewrite wdedup_distinct by exact ND.
+    apply kept_all_distinct. eapply ids_of_perm; [|exact ND]. apply isort_perm.
   Qed.
 
   (* the FST's own word list (what fuzzy search ranges over) is a permutation of the entries, and its
@@ -273,13 +507,12 @@ Section DictFacts.
     intros ND. split.
     - rewrite fst_new_words by exact ND. apply isort_perm.
     - intros ws' id P.
-      assert (E : f_full (fst_new ws) = mut_extend [] (f_words (fst_new ws))) by reflexivity.
-      rewrite E, fst_new_words by exact ND.
+      rewrite fst_new_full by exact ND.
       rewrite (mut_extend_perm ws (wsort ws) id ND (isort_perm _ ws)).
       symmetry. now apply mut_extend_perm.
   Qed.
 
-  (* the driver's bulk load of the (sorted) curated list: sort and dedup are the identity *)
+  (* the driver's bulk load of the (sorted) curated list: sort, dedup and retain are the identity *)
   Lemma isort_adj_sorted (l : list (text * meta)) :
     adj_sorted l = true -> wsort l = l.
   Proof.
@@ -295,13 +528,11 @@ Section DictFacts.
     intros Hs ND. unfold DictModel.fst_new. rewrite (isort_adj_sorted ws Hs).
     assert (E : wdedup ws = ws).
     { unfold wdedup. apply (dedup_by_distinct (@fst text meta)). now apply ids_distinct_spellings. }
-    rewrite E. f_equal. now apply mut_extend_distinct_ids.
+    rewrite E, (kept_all_distinct ws ND). f_equal. now apply mut_extend_distinct_ids.
   Qed.
 
   (* ---------- From<MutableDictionary> for FstDictionary (the only constructor call in the crate) ---------- *)
   Notation fst_of_mutable := (fst_of_mutable is_lower lower).
-  Definition entries_of (m : wordmap) : list (text * meta) :=
-    map (fun kv => (e_canon (snd kv), e_meta (snd kv))) m.
 
   Lemma entries_ids m : wm_wf m -> ids_of (entries_of m) = map fst m.
   Proof.
@@ -332,7 +563,8 @@ Section DictFacts.
     unfold DictModel.fst_of_mutable. fold (entries_of m).
     destruct (fst_new_distinct (entries_of m) NDe) as [P _]. split; [exact P|].
     unfold fst_words_iter.
-    assert (E : f_full (fst_new (entries_of m)) = mut_extend [] (f_words (fst_new (entries_of m)))) by reflexivity.
+    assert (E : f_full (fst_new (entries_of m)) = mut_extend [] (f_words (fst_new (entries_of m))))
+      by (now rewrite fst_new_full, fst_new_words).
     rewrite E, mut_extend_distinct_ids by (eapply ids_of_perm; [exact P|exact NDe]).
     unfold mut_words. rewrite map_map. cbn [entry_of snd e_canon].
     change (fun x : text * meta => fst x) with (@fst text meta).
@@ -430,3 +662,56 @@ Section DictFacts.
     - repeat split; [exact IH1|exact IH2|exact IH3|]. f_equal. exact IH4.
   Qed.
 End DictFacts.
+
+(* ------------------------------------------------------------------------------------------ *)
+(** * MergedDictionary::hash_dictionary (fix f2dc537): independent of the iteration order of the child *)
+Definition hash_sum (h : text -> N) (ws : list text) : N := fold_right (fun w s => (h w + s)%N) 0%N ws.
+
+Lemma hash_words_acc h ws : forall acc,
+  fold_left (fun acc w => wrapping_add64 acc (h w)) ws (acc mod two64)%N = ((acc + hash_sum h ws) mod two64)%N.
+Proof.
+  assert (M : two64 <> 0%N) by discriminate.
+  induction ws as [|w ws IH]; intros acc; cbn [fold_left hash_sum fold_right].
+  - now rewrite N.add_0_r.
+  - unfold wrapping_add64 at 2. rewrite N.add_mod_idemp_l by exact M.
+    rewrite IH. unfold hash_sum. f_equal. lia.
+Qed.
+
+Lemma hash_words_sum h ws : hash_words h ws = (hash_sum h ws mod two64)%N.
+Proof.
+  unfold hash_words. change 0%N with (0 mod two64)%N at 1. now rewrite hash_words_acc.
+Qed.
+
+Lemma hash_sum_perm h ws ws' : Permutation ws ws' -> hash_sum h ws = hash_sum h ws'.
+Proof.
+  induction 1 as [|x l l' _ IH|x y l|l l' l'' _ IH1 _ IH2].
+  - reflexivity.
+  - change (hash_sum h (x :: l)) with (h x + hash_sum h l)%N.
+    change (hash_sum h (x :: l')) with (h x + hash_sum h l')%N. now rewrite IH.
+  - change (hash_sum h (y :: x :: l)) with (h y + (h x + hash_sum h l))%N.
+    change (hash_sum h (x :: y :: l)) with (h x + (h y + hash_sum h l))%N. lia.
+  - now rewrite IH1.
+Qed.
+
+Theorem hash_words_perm h ws ws' : Permutation ws ws' -> hash_words h ws = hash_words h ws'.
+Proof. intros P. now rewrite !hash_words_sum, (hash_sum_perm h ws ws' P). Qed.
+
+(* two merged dictionaries whose children list the same words (each in any order) compare equal *)
+Theorem merged_eqb_perm h cs cs' : Forall2 (@Permutation text) cs cs' -> merged_eqb h cs cs' = true.
+Proof.
+  unfold merged_eqb. induction 1 as [|c c' cs cs' P _ IH]; [reflexivity|].
+  cbn [map length combine forallb fst snd]. apply andb_true_iff in IH as [IH1 IH2].
+  apply andb_true_iff. split; [exact IH1|].
+  rewrite (hash_words_perm h c c' P), N.eqb_refl. exact IH2.
+Qed.
+
+(* HISTORY: the old hash could not tell {"ab","c"} from {"a","bc"} (whatever the hasher), and depended on the order *)
+Lemma hash_words_old_collision hs :
+  hash_words_old hs [[97; 98]; [99]]%N = hash_words_old hs [[97]; [98; 99]]%N /\
+  hash_words_old hs [[97; 98]; [99]]%N = hash_words_old hs [[97; 98; 99]]%N.
+Proof. split; reflexivity. Qed.
+
+Lemma merged_hash_order_independent hash_one :
+  (forall ws ws', Permutation ws ws' -> hash_words hash_one ws = hash_words hash_one ws') /\
+  (forall cs cs', Forall2 (@Permutation text) cs cs' -> merged_eqb hash_one cs cs' = true).
+Proof. split; [apply hash_words_perm|apply merged_eqb_perm]. Qed.
